@@ -187,7 +187,7 @@ func TestP1Independent(t *testing.T) {
 	rec.Rule("inputs: fonts laid out by the independent writer t1ref in 'unusual but legal' mode (fractional widths and side bearings, sbw with vertical parts, odd numbers of stems, stem3, encodings naming absent glyphs or absent altogether, no .notdef, empty and odd FontName / glyph names over all regular bytes, four date layouts, strings with CR/LF/parentheses/NUL, subrs/flex/seac/hint replacement, all containers and lenIV values). F1=Read(x) (rejected or non-finite inputs are counted and discarded); for each of the 4 formats F2=Read(Write(F1)) must succeed and equal F1 up to: widths whole and within 0.5, coordinates within 1/214 (+1e-6 for axis snapping), BlueScale within 1e-6 of 0.039625 snapped; for each of the 4 formats F3=Read(Write(F2)) must deep-equal F2. Non-trivial: F1 has a fractional width, a vertical width, fractional coordinates, no .notdef in the file, or the layout used subrs/flex/seac; distinct by input bytes.")
 	ex := findings(rec)
 	flexBug := known.Probe(nil, "C06-flex-after-line", func() bool { return true })
-	ev.SetupRapid(1500, 60000)
+	ev.SetupRapid(5000, 120000)
 	rapid.Check(t, func(t *rapid.T) {
 		m, feat := t1gen.GenModel(t, t1gen.ModelOpts{Unusual: true, SeacOwnEncoding: true, NoFlexAfterLine: flexBug})
 		l, lfeat := t1gen.GenLayout(t)
@@ -237,7 +237,7 @@ func TestP2OwnOutput(t *testing.T) {
 	rec.Rule("inputs: files written by the library's own writer for fonts of the C09 generator with fractional advance widths added, in a random format; same closure oracle. Non-trivial: >= 2 glyphs and fractional width or coordinates.")
 	ex := findings(rec)
 	zoneBug := known.Probe(nil, "C09-zone-offset", func() bool { return true })
-	ev.SetupRapid(900, 40000)
+	ev.SetupRapid(3000, 80000)
 	rapid.Check(t, func(t *rapid.T) {
 		f, _ := t1gen.GenFont(t, t1gen.FontOpts{NoOperatorNames: ex.shadow, NoNewlineVersion: ex.newline, NoStdEncHoles: ex.holes, NoOddZones: zoneBug})
 		for _, g := range f.Glyphs {
